@@ -119,15 +119,23 @@ def run(chk: common.Check):
     rng = chk.rng
     proved = chk.prove()
     found = []
-    names = ["1HPX.pdb", "3SGB-subset.pdb"] + (["3SGB.pdb", "1FTJ-Chain-A.pdb", "4DFR.pdb"] if chk.thorough else [])
+    names = ["1HPX.pdb", "3SGB-subset.pdb", "conf-alt-AB.pdb + residues of 1HPX chain B"] + (["3SGB.pdb", "1FTJ-Chain-A.pdb", "4DFR.pdb"] if chk.thorough else [])
     edis = []
     for ni, n in enumerate(names):
-        text = "\n".join(l for l in structures.read(n).splitlines() if l[17:20] != "HOH") + "\n"
+        if n.startswith("conf-alt-AB.pdb +"):
+            # several conformations (alternate locations) AND two chains whose residue numbers do not overlap as deposited
+            alt = [structures.set_chain(l, "A") for l in structures.read("conf-alt-AB.pdb").splitlines() if structures.is_atom(l)]
+            frag = [l for l in structures.read("1HPX.pdb").splitlines() if l[:6] == "ATOM  " and l[21] == "B" and 20 <= int(l[22:26]) <= 34]
+            ca, cf = structures.bbox("\n".join(alt)), structures.bbox("\n".join(frag))
+            sh = tuple(round(ca[i][1] - cf[i][0] + (6.0 if i == 0 else 0.0), 3) for i in range(3))
+            text = "\n".join(alt) + "\nTER   \n" + relabel(structures.move("\n".join(frag) + "\n", None, sh), None, {"B": 100}) + "TER   \nEND\n"
+        else:
+            text = "\n".join(l for l in structures.read(n).splitlines() if l[17:20] != "HOH") + "\n"
         mol0, _ = structures.run(text)
         if ni == 0:
             edis = corr_group_eq(chk, mol0, rng, 300)
         n0 = numbers(mol0)
-        chains = sorted({l[21] for l in structures.atom_lines(text)})
+        chains = sorted({l[21] for l in structures.atom_lines(text)}, key=lambda c: c.strip() or "_")   # a blank chain id is read as '_' 
         variants = []
         up = {c: chr(ord(c) + 2) for c in chains}                      # monotone renaming
         variants.append(("chains renamed " + str(up), lambda: relabel(text, up), False))
@@ -143,6 +151,10 @@ def run(chk: common.Check):
             adj = {a: "A", b: "B"}
             variants.append(("chains A/B, first +1000", lambda: relabel(relabel(text, adj), None, {"A": 1000}), False))
             variants.append(("chains A/B, second -1000", lambda: relabel(relabel(text, adj), None, {"B": -1000}) if min(nums[b]) - 1000 >= -999 else None, False))
+            variants.append(("chains renamed to digits 1 / 2", lambda: relabel(text, {a: "1", b: "2"}), False))
+            variants.append(("second chain +1", lambda: relabel(text, None, {b: 1}), False))
+            if min(nums[a]) != min(nums[b]):
+                variants.append(("second chain renumbered to start where the first starts", lambda: relabel(text, None, {b: min(nums[a]) - min(nums[b])}), False))
             variants.append(("chains X/Y, first +1000, second to negative", lambda: relabel(relabel(text, {a: "X", b: "Y"}), None, {"X": 1000, "Y": -(min(nums[b]) + 20)}), False))
         if len(chains) >= 2:
             a, b = chains[0], chains[1]
